@@ -359,3 +359,26 @@ def run_cases(ctx, casefn, count, label, with_ids=False, native_sets=False):
         ctx.case({"call": desc, "program": (real[1][:300] if real[0] == "ok" else real[1])}, line if nontriv else None)
         if d is not None:
             ctx.disagree("program:" + label, call=desc, real=d[0][:3000], model=d[1][:3000], line=line[:2000])
+
+
+def case_frame_cycle(rng):
+    from cspuz import graph as G
+    from cspuz.grid_frame import BoolGridFrame
+    H, W = rng.randint(0, 3), rng.randint(0, 3)
+    prim = _prim(rng)
+    path = rng.random() < 0.3
+    if path:
+        prim = True
+
+    def build(s):
+        fr = BoolGridFrame(s, H, W)
+
+        def call():
+            f = G.active_edges_single_path if path else G.active_edges_single_cycle
+            r = f(s, fr, use_graph_primitive=prim)
+            assert r.shape == (H + 1, W + 1), r.shape
+            return [pexpr(x) for x in r.data]
+        return call
+    real = graphs.capture(build)
+    line = sx(["cycle_frame", H, W, prim, path])
+    return real, line, {"fn": "single_cycle/path(frame)", "H": H, "W": W, "prim": prim, "path": path}
